@@ -234,8 +234,12 @@ def o_identity(case, lines):
         nodes_ = tree_from_N(lines)
         sub = sum(nd["ndesc"] for nd in nodes_[:40]) if nodes_ else 0
         exp = sum(max(0, n - k - 1) for k in range(3)) + 4 * n + sub + sum(1 for k in range(3) if n > k)
+        # nth_back(k), rev().skip(k).take(2) and one more next_back() on the descendants of each of the first 40 nodes
+        for nd in (nodes_[:40] if nodes_ else []):
+            t = nd["ndesc"]
+            exp += sum((1 if t > k else 0) + min(2, max(0, t - k)) + (1 if t > k + 1 else 0) for k in range(3))
         if int(oi[0][1]) != exp:
-            return "only %s of %d nodes reached through descendants().nth(k) round-trip through get_node(n.id())" % (oi[0][1], exp)
+            return "only %s of %d nodes reached through descendants().nth(k) / nth_back(k) / rev().skip(k) are the expected nodes and round-trip through get_node(n.id())" % (oi[0][1], exp)
     oh = sec(lines, "OH")
     if oh:
         if int(oh[0][1]) != 2 * n or oh[0][2] != "1":
@@ -361,7 +365,7 @@ def o_navigation(case, lines):
             toks = []
             j = 0
             while j < len(w):
-                if w[j] == "N":
+                if w[j] in "NR":
                     k2 = j + 1
                     while k2 < len(w) and w[k2].isdigit():
                         k2 += 1
@@ -377,6 +381,14 @@ def o_navigation(case, lines):
                     exp.append(str(dq.pop()) if dq else "-1")
                 elif t == "L":
                     exp.append("%d/%d" % (len(dq), len(dq)))
+                elif t[0] == "R":
+                    k3 = int(t[1:])
+                    if k3 < len(dq):
+                        exp.append(str(dq[len(dq) - 1 - k3]))
+                        dq = dq[:len(dq) - 1 - k3]
+                    else:
+                        exp.append("-1")
+                        dq = []
                 else:
                     k3 = int(t[1:])
                     if k3 < len(dq):
@@ -666,6 +678,7 @@ def o_lookups(case, lines):
             push(ans, al)
     push("-", "x" + b"absent".hex())
     push("x" + spec.XML_URI.encode().hex(), "x" + b"lang".hex())
+    push("-", "x")
     prefixes = ["-", "x" + b"absent".hex(), "x" + b"xml".hex()]
     uris = ["x" + b"absent".hex(), "x", "x" + spec.XML_URI.encode().hex(), "x" + spec.XMLNS_URI.encode().hex()]
     for i in (sorted(kinds) if kinds else order):
